@@ -2390,8 +2390,10 @@ class UDFShortAD:
         (self.extent_length,
          self.log_block_num) = struct.unpack_from(self.FMT, data, 0)
 
-        self.extent_length = self.extent_length & 0x3FFFFFFF
+        # The top two bits of the length are the type of the extent
+        # (ECMA-167, Part 4, 14.14.1.1); take them before masking them off.
         self.extent_type = (self.extent_length & 0xc0000000) >> 30
+        self.extent_length = self.extent_length & 0x3FFFFFFF
 
         self._initialized = True
 
